@@ -123,31 +123,41 @@ def check_encoding(ctx, mesh, enc, mode, label, order=()):
         ctx.at("C10.face_edge")
         fe = rows_of(topo.face_edge_array)
         clause = "C10.supplied_used_as_given" if "face_edge" in supplied else "C10.derived_face_edge"
-        ctx.check(compact(fe) == ref["face_edge"], clause,
+        # a supplied table speaks the file's edge numbering, a derived one the numbering of the
+        # reported edge_node_array (the same thing whenever edge_node is supplied)
+        want_fe = tables["face_edge"] if "face_edge" in supplied else ref["face_edge"]
+        ctx.check(compact(fe) == want_fe, clause,
                   lambda: f"{what}: face_edge_array = {fe}; edge c of a face joins its nodes c and c+1: "
-                  f"{ref['face_edge']} (edges {numbering})")
+                  f"{want_fe} (edges {edges if 'face_edge' in supplied else numbering})")
 
         ctx.at("C10.edge_face")
         ef = rows_of(topo.edge_face_array)
         if "edge_face" in supplied:
-            ctx.check(compact(ef) == ref["edge_face"], "C10.supplied_used_as_given",
-                      lambda: f"{what}: edge_face_array = {ef}; the file supplies {ref['edge_face']}")
+            given = specs.supplied_edge_face(spec["geom"])
+            ctx.check(ef == given, "C10.supplied_used_as_given",
+                      lambda: f"{what}: edge_face_array = {ef}; the file supplies {given}")
         else:
-            ctx.check([sorted(r) for r in compact(ef)] == [sorted(r) for r in ref["edge_face"]],
+            # an edge lists exactly the faces that contain it (by the reported face_edge_array)
+            containing = [[] for _ in ef]
+            for f, row in enumerate(compact(fe)):
+                for e in row:
+                    if 0 <= e < len(containing):
+                        containing[e].append(f)
+            ctx.check([sorted(r) for r in compact(ef)] == [sorted(r) for r in containing],
                       "C10.derived_edge_face",
                       lambda: f"{what}: derived edge_face_array = {ef}; faces containing each edge: "
-                      f"{ref['edge_face']}")
+                      f"{containing}")
         ctx.check(all(len(r) == 2 for r in ef), "C10.derived_edge_face",
                   lambda: f"{what}: edge_face_array is not two columns wide: {ef}")
 
         ctx.at("C10.face_face")
         ff = rows_of(topo.face_face_array)
         if "face_face" in supplied:
-            ctx.check([r[:len(f)] for r, f in zip(ff, faces)] == ref["face_face"],
+            ctx.check([r[:len(f)] for r, f in zip(ff, faces)] == tables["face_face"],
                       "C10.supplied_used_as_given",
-                      lambda: f"{what}: face_face_array = {ff}; the file supplies {ref['face_face']}")
+                      lambda: f"{what}: face_face_array = {ff}; the file supplies {tables['face_face']}")
         else:
-            want = [sorted(o for o in r if o is not None) for r in ref["face_face"]]
+            want = [sorted(o for o in r if o is not None) for r in tables["face_face"]]
             got = [sorted(r) for r in compact(ff)]
             ctx.check(got == want, "C10.derived_face_face",
                       lambda: f"{what}: derived face_face_array = {ff}; faces sharing an edge: {want}")
@@ -231,7 +241,8 @@ def cases(draw):
             "edges": draw(S.edge_numbering(m["faces"]))}
     out = {"mesh": mesh}
     for tag in ("a", "b"):
-        enc = draw(S.ugrid_encoding())
+        # every subset of the optional tables, also edge tables without the edge-node table
+        enc = draw(S.ugrid_encoding(require_edge_node=draw(st.booleans())))
         enc["pad_columns"] = draw(st.sampled_from([0, 0, 0, 1]))
         if enc["pad_columns"] and enc["fill"] == "int":
             enc["fill"] = draw(st.sampled_from(["int", "nan"]))
